@@ -286,7 +286,10 @@ class TemplateLoader(object):
         def _load_from_directory(filename):
             filepath = os.path.join(path, filename)
             fileobj = open(filepath, 'rb')
-            mtime = os.path.getmtime(filepath)
+            # the modification time of the file that was opened, not of whatever
+            # the path names by now: a file replaced in between must not be
+            # cached as up to date with the content of its predecessor
+            mtime = os.fstat(fileobj.fileno()).st_mtime
             def _uptodate():
                 return mtime == os.path.getmtime(filepath)
             return filepath, filename, fileobj, _uptodate
